@@ -89,7 +89,13 @@ pub fn run_schedule_relimit(stream: &[u8], ch: &Choices, b: Bounds, max_len: usi
                 }
             }
         };
-        // quiescent point: no future alive; check the state against the source
+        // quiescent point: no future alive.  Looking at the source through the accessors (also the
+        // mutable one, without touching the source) is not an event of the protocol
+        if stats.polls & 1 == 0 {
+            let s: &mut Src = reader.reader_mut();
+            let _ = s.pos;
+        }
+        // check the state against the source
         #[cfg(have_io_hook)]
         {
             let (tag, off, buflen, ml) = reader.verif_state();
